@@ -45,6 +45,8 @@ class Check(DiffCheck):
     id = 'C03'
     # lockset engine (lib/lockset.py): release-and-wait atomicity and the thread.lock/waitq.lock discipline the model's blocks assume
     lockset_rules = {10, 11, 12, 13, 14, 15}
+    # E4S (lib/e4s.py): controlled 2-vCPU schedule search with this property's oracle (preemption at every lock boundary)
+    e4s_props = {'C03'}
     coq_dirs = ['Base', 'C03']          # + coq/C04/C04_Heap.v alone (scanned in extra(); the rest of C04 is another property's)
     coq_targets = ['C03/C03_WF.vo', 'C03/C03_Proofs.vo', 'C03/C03_Queue.vo', 'C03/C03_Notify.vo', 'C03/C03_Result.vo', 'C03/C03_IntrRace.vo', 'C03/C03_Locked.vo', 'C03/C03_NeverBad.vo', 'C03/C03_NoIntr.vo']
     properties_v = 'C03/C03_Properties.v'
